@@ -79,9 +79,12 @@ type Engine struct {
 	violSeen   map[string]bool
 	asserts    int64
 	liftFns    map[string]bool
-	initMode   bool
-	curInit    *ssa.Function
-	pkgs       []*packages.Package
+	// mapOrderPolicy: order in which `range` visits a map (Go leaves it unspecified):
+	// 0 insertion order, 1 reversed, 2 rotated by one, 3 odd positions first
+	mapOrderPolicy int
+	initMode       bool
+	curInit        *ssa.Function
+	pkgs           []*packages.Package
 }
 
 type Violation struct {
